@@ -1,7 +1,7 @@
 (* Wire-level table of the gadget model (Model/Gadgets.v) instantiated at Fq, for the correspondence check with
    the harness' r1.* ops.  Arguments are integers; hint present = 1 followed by (was_square, y), absent = 0 (honest). *)
 Require Import ZArith List Bool String.
-From D377 Require Import Base.Certs Base.ZpField Base.FieldSec Base.Fields Model.Decaf Model.Gadgets Model.Wrapper Model.Concrete.
+From D377 Require Import Base.Certs Base.ZpField Base.FieldSec Base.Fields Model.Decaf Model.Sqrt Model.Gadgets Model.Wrapper Model.Concrete.
 Import ListNotations.
 Open Scope Z_scope.
 Local Existing Instance FqF.
@@ -50,7 +50,13 @@ Definition run_hist (kind x y bkind bx by_ : Z) (codes : list Z) : list Z :=
   gb (fst w' && (bsat || negb uses_b)) :: flat_map hist_out rs.
 
 Definition run_gadget (op : string) (a : list Z) : list Z :=
-  if String.eqb op "r1.hist" then
+  if String.eqb op "r1.scalar_mul" then
+    (* CurveVar::scalar_mul_le on a variable allocated in mode `kind` from the affine point (x, y), bits = little-endian bits of the u64 limbs *)
+    match a with kind :: x :: y :: limbs =>
+      let '(sat, p) := hist_operand kind x y in
+      let r := @gscalar_mul_le FqF ark_A ark_D p (Sqrt.limbs_bits limbs) in gb sat :: val (aX r) :: val (aY r) :: nil
+    | _ => (-1) :: nil end
+  else if String.eqb op "r1.hist" then
     match a with kind :: x :: y :: bkind :: bx :: by_ :: codes => run_hist kind x y bkind bx by_ codes | _ => (-1) :: nil end
   else
   if String.eqb op "r1.isqrt" then
